@@ -1,7 +1,7 @@
 META = {
     "level": "model_checking",
     "technique": "TLA+ model of SFTPFile's prefetch machinery (SftpClientProto.tla: prefetch threads with the max_concurrent_requests busy-wait, extents/buffers, readv planning, BufferedFile.read loop, a server with short reads and EOF statuses) model-checked by TLC for exact returned ranges and absence of a blocked reader; every program of the bounded model and seeded random programs run on a real SFTPClient/SFTPServer pair (short-read handle, watchdog) and judged by the TLC trace spec",
-    "text": "TLC explores all interleavings of the application thread, the prefetch threads and the server for small files and all programs of prefetch / seek / read / readv calls (chunks inside, spanning and past EOF, overlapping, unordered; limit None or 1; short reads): with the repair toggles every completed read returns exactly the file's range and the reader never waits with nothing in flight; each faithful toggle must reproduce its counterexample (stale extent after an EOF status, EOF status surfacing in another chunk's read, readv with nothing left to request). Every program of the bounded model is scaled to bytes and run on the real client against a real server whose handle returns short reads; seeded random programs use sizes 0..300 KiB, random seeks, chunk lists and max_concurrent_requests None/1..8. The trace spec keeps the file position, classifies every chunk list itself and judges returned offsets and lengths; a blocked call is the clause P_blocked",
+    "text": "TLC explores all interleavings of the application thread, the prefetch threads and the server for small files and all programs of prefetch / seek / read / readv calls (chunks inside, spanning and past EOF, overlapping, unordered; limit None or 1; short reads; in the quick tier read/readv programs in one configuration and prefetch/read/seek programs with a read buffer and all three whence values in another): with the repair toggles every completed read returns exactly the file's range, the file position between calls is where the calls put it, and the reader never waits with nothing in flight; each faithful toggle / mutation must reproduce its counterexample (stale extent after an EOF status, EOF status surfacing in another chunk's read, readv with nothing left to request, SEEK_CUR counted from the end of the read-ahead). Every program of the bounded model is scaled to bytes and run on the real client against a real server whose handle returns short reads; seeded random programs use sizes 0..300 KiB, random seeks, chunk lists and max_concurrent_requests None/1..8. The trace spec keeps the file position, classifies every chunk list itself and judges returned offsets and lengths; a blocked call is the clause P_blocked",
     "note": "trusted: TLC, the in-process server interface, the byte locator of the driver (returned bytes are looked up in the random source file); thread schedules of the real runs are whatever the OS gives (free-running threads under a watchdog; a blocked call = both pipe ends idle with nothing in flight for 0.25 s, confirmed by a longer wait on its first occurrences, or the wall deadline); a plain read() that returns a non-empty but short result before EOF is reported as conformance only",
 }
 import random
@@ -103,6 +103,9 @@ def run_programs(c, programs, label, own):
 def model_c28(c):
     inv = ["ReadExact", "NoHang"]
     base = dict(READ_MODEL)
+    if c.quick:
+        # prefetch / seek interleavings are explored by SEEK_MODEL below in this tier; all four kinds together in thorough
+        base.update(Ops={"read", "readv"})
     if not c.quick:
         base.update(ReadSizes={1, 3}, SeekPos={0, 2}, VOffs={0, 2, 4}, VLens={1, 2})
     c.mc_holds("SftpClientProto", cfg_text(constants=consts(base), invariants=inv), name="prefetch/readv, repaired",
@@ -110,9 +113,12 @@ def model_c28(c):
     small = dict(READ_MODEL)
     c.mc("SftpClientProto", cfg_text(constants=consts(dict(small, FixExtent=False)), invariants=inv), expect="NoHang",
          name="faithful: STATUS leaves the extent registered")
-    c.mc("SftpClientProto", cfg_text(constants=consts(dict(small, FixEofSave=False)), invariants=inv), expect="ReadExact",
+    # (narrower programs for these two: the counterexamples need only readv calls)
+    c.mc("SftpClientProto", cfg_text(constants=consts(dict(small, FixEofSave=False, Ops={"readv"}, VOffs={0, 3}, Limits={0})),
+                                     invariants=inv), expect="ReadExact",
          name="faithful: EOF status saved as the file's pending exception")
-    c.mc("SftpClientProto", cfg_text(constants=consts(dict(small, FixEmptyStart=False)), invariants=inv), expect="NoHang",
+    c.mc("SftpClientProto", cfg_text(constants=consts(dict(small, FixEmptyStart=False, Ops={"readv"}, VOffs={2}, Limits={0})),
+                                     invariants=inv), expect="NoHang",
          name="faithful: _start_prefetch([]) leaves done = False")
     # seek(SET / CUR / END) after short reads with read-ahead: the file stays where the calls put it
     sinv = inv + ["PosAgrees"]
@@ -288,8 +294,9 @@ def client_half(c, pid):
     small = dict(WRITE_MODEL)
     c.mc("SftpClientProto", cfg_text(constants=consts(dict(small, FixOwner=False, WriteFaults=False)), invariants=inv),
          expect="NoHang", name="faithful: a synchronous request drops a pipelined write status, the drain waits forever")
-    c.mc("SftpClientProto", cfg_text(constants=consts(dict(small, FixOwner=False, FixClose=True)), invariants=inv),
-         expect="NoHang", name="candidate repair 'close() drains _reqs' alone still blocks")
+    if not c.quick:
+        c.mc("SftpClientProto", cfg_text(constants=consts(dict(small, FixOwner=False, FixClose=True)), invariants=inv),
+             expect="NoHang", name="candidate repair 'close() drains _reqs' alone still blocks")
     # back-pressure: bounded request / response pipes whose credit comes back in lumps (SSH window adjusts)
     pinv = ["NoHang", "ReadExact"]
     c.mc_holds("SftpClientProto", cfg_text(constants=consts(PRESSURE_MODEL), invariants=pinv),
